@@ -142,6 +142,16 @@ CHECKS = {
          "Trusted: the compatibility model in props/c01.py (validated by its own agreement with the code on all cases). Lattice keeps every "
          "boundary out of the bands between delta and the heuristic thresholds (see evidence.assumptions).",
          "DESIGN.md §3 C01"),
+ "C13": ("exploration",
+         "bounded-exhaustive enumeration of read structures (all exon-slot subsets, mono-exonic reads in exons/introns, disjoint clusters) over annotations with overlapping/contained/shared features x presets x grouping; recount oracle on pipeline output",
+         "Annotation variants with an overlapping exon (alternative donor +100), a contained exon, nested introns, exons shared by two genes and by "
+         "an antisense gene; reads = every subset of the exon slots with exact boundaries plus mono-exonic reads inside an exon and inside "
+         "introns, in one cluster, two clusters, or several disjoint clusters of the same gene; delta 0 and 6; with and without read_id groups. "
+         "Every annotated exon and intron is recounted from the alignments (include = matching block/junction within delta, exclude = spanned "
+         "without matching); rows must be unique and carry the annotation's coordinates, strand and gene list; grouped rows must sum to the "
+         "ungrouped ones and match the per-group recount.",
+         "Trusted: recount in props/c13.py; near-threshold overlaps are not decided.",
+         "DESIGN.md §3 C13"),
 }
 
 NOT_YET = {}
